@@ -11,6 +11,10 @@ Pipeline driven on the real code, exactly as annet.gen / annet.api / annet.diff 
 
 judged by mc.ref.filedev (argmax-prio table, content-comparison decision table).
 
+Binding to annet/gen.py: for every stage-1 case the real annet.gen._old_new_per_device is run as well (pc branch, stub
+context: config="running", do_files_download, the device's files in ctx.downloaded_files), with and without --acl-safe;
+the OldNewResult it returns must carry exactly the fields the pipeline above hands to stage 2.
+
 Stage 2 is a function of the OldNewResult value; it is executed once per distinct value reached in a block
 (visited-state set). That the value really is captured by the key is checked on every execution: the OldNewResult
 handed over records which attributes are read, and a read outside the key is a violation.
@@ -290,6 +294,48 @@ def judge_selection(listing, soft, full, safe_map):
 
 
 # ---------------------------------------------------------------------------------------------------
+# binding: the real annet.gen._old_new_per_device (pc branch) must hand over exactly the value make_onr builds
+def run_gen_py(listing, soft, old, acl_safe):
+    import types
+    from annet import gen as ann_gen
+    dev = _DEV[soft]
+    gens = [gen_class(r)(_STORAGE) for r in listing]
+    args = types.SimpleNamespace(no_acl=False, acl_safe=bool(acl_safe), no_acl_exclusive=False, profile=False,
+                                 fail_on_empty_config=False, generators_context=None, filter_acl=None, filter_ifaces=None,
+                                 filter_peers=None, filter_policies=None, required_packages_check=False)
+    dg = ann_gen.DeviceGenerators(entire={dev: gens}, json_fragment={dev: []})
+    downloaded = ann_gen.DeviceDownloadedFiles(entire_files=dict(old))
+    ctx = ann_gen.OldNewDeviceContext(
+        config="running", args=args, downloaded_files={dev: downloaded}, failed_files={}, running={}, failed_running={},
+        no_new=False, stdin=None, add_annotations=False, add_implicit=False, do_files_download=True, gens=dg,
+        fetched_packages={}, failed_packages={}, device_count=1, do_print_perf=False)
+    return ann_gen._old_new_per_device(ctx, dev, None)
+
+
+def judge_gen_py(listing, soft, full, safe_map, old, acl_safe):
+    out = []
+    try:
+        r = run_gen_py(listing, soft, old, acl_safe)
+    except Exception as e:  # noqa
+        return [({"kind": "gen-py-raises", "exc": type(e).__name__}, repr(e)[:400])]
+    if r.err is not None:
+        return [({"kind": "gen-py-raises", "exc": type(r.err).__name__}, repr(r.err)[:400])]
+    want = {"new_files": dict(full), "safe_new_files": dict(safe_map) if acl_safe else {}, "old_files": dict(old),
+            "new_json_fragment_files": {}, "old_json_fragment_files": {}, "safe_new_json_fragment_files": {}}
+    for field, exp in want.items():
+        got = getattr(r, field)
+        if dict(got) != exp or (field in ("new_files", "safe_new_files") and list(got.items()) != list(exp.items())):
+            out.append(({"kind": "gen-py-result-field", "field": field, "acl_safe": acl_safe},
+                        "_old_new_per_device(...).%s = %r, run_file_generators(...) gives %r; listing=%r old=%r"
+                        % (field, dict(got), exp, listing, old)))
+    def paths_of(er):
+        return sorted(v.path for v in (er.values() if isinstance(er, dict) else er))
+    if paths_of(r.entire_results) != paths_of(run_stage1(listing, soft)[0].entire_results):
+        out.append(({"kind": "gen-py-result-field", "field": "entire_result", "acl_safe": acl_safe}, "listing=%r" % (listing,)))
+    return out
+
+
+# ---------------------------------------------------------------------------------------------------
 # stage 2: deploy plan and file diff
 EDGE_CLASSES = ("absent on device vs generated empty", "differs only by trailing newline", "differs only in line terminators")
 
@@ -438,6 +484,10 @@ OLD_MAPS = [old_dict(s) for s in itertools.product(OLD_STATES, repeat=len(PATHS)
 STAGE2_PER_VALUE = 2 * len(OLD_MAPS) * len(MODES)
 
 
+# device file maps used for the gen.py binding (the device's files are passed through unchanged: two maps suffice)
+GEN_PY_OLD = [OLD_MAPS[0], OLD_MAPS[-1]]
+
+
 def case_of(listing, soft, old=None, acl_safe=None, mode=None):
     c = {"gens": [list(r) for r in listing], "soft": soft}
     if old is not None:
@@ -465,6 +515,12 @@ def run_block(block, ctx):
             ctx.outcomes["select n=%d paths=%d safe-planned=%d" % (len(listing), len(full), len(safe_map))] += 1
             for sig, detail in judge_selection(listing, soft, full, safe_map):
                 ctx.violation(sig, case_of(listing, soft), detail)
+            for acl_safe in (0, 1):
+                old = GEN_PY_OLD[acl_safe]
+                for sig, detail in judge_gen_py(listing, soft, full, safe_map, old, acl_safe):
+                    ctx.violation(sig, dict(case_of(listing, soft, old, acl_safe), gen_py=True), detail)
+                ctx.evals += 1
+                ctx.extra["gen_py_bindings"] += 1
             if contested and len(ctx.samples) < 2:
                 ctx.sample({"listing(path,prio,output,reload,is_safe,prio declared how)": [list(r) for r in listing], "soft": soft,
                             "new_files": {k: list(v) for k, v in full.items()},
@@ -508,6 +564,8 @@ def replay(case):
     soft = case["soft"]
     res, full, safe_map = run_stage1(listing, soft)
     out = list(judge_selection(listing, soft, full, safe_map))
+    if case.get("gen_py"):
+        return out + judge_gen_py(listing, soft, full, safe_map, case["old"], case["acl_safe"])
     if "old" in case:
         old, acl_safe = case["old"], case["acl_safe"]
         eff = safe_map if acl_safe else full
